@@ -41,14 +41,14 @@ func intRange(t types.Type) (lo, hi int64, unsigned64 bool, ok bool) {
 // narrowReviewed: conversions whose truncation is intended or whose range argument lies outside the linear prover.
 // key: function | substring of the operand expression.
 var narrowReviewed = map[string]string{
-	"(internal/dnsmsg.Name).pack|compression[": "byte(ptr) / byte(ptr>>8|0xC0) split a 14-bit compression pointer into its two octets: the low octet is a deliberate truncation; map values are stored only under `newPtr <= 0x3FFF` (R02f)",
+	"(internal/dnsmsg.Name).pack|compression[":        "byte(ptr) / byte(ptr>>8|0xC0) split a 14-bit compression pointer into its two octets: the low octet is a deliberate truncation; map values are stored only under `newPtr <= 0x3FFF` (R02f)",
 	"(*internal/cache.RedisCache).buildValue|.Unix()": "Unix timestamps of the current time (non-negative after 1970); a time value, not an input length",
-	"(*internal/cache.RedisCache).Get|Uint64(": "stored timestamps read back from redis: a value >= 2^63 becomes a time in the past and the entry is treated as expired; no length or offset is derived from it",
-	"(*internal/dnsmsg.NAMEResource).pack|": "RDLENGTH is written as uint16(off)-uint16(dataStartOff): exact modulo 2^16 when the packed RDATA is at most 65535 octets; the RDATA is one name of at most 255 octets (Scan rejects longer names). A packed-size argument on the encode path, outside the decode of attacker bytes",
-	"(*internal/dnsmsg.SOA).pack|":          "RDLENGTH difference (see NAMEResource.pack): two names of at most 255 octets and five 32-bit fields",
-	"(*internal/dnsmsg.MX).pack|":           "RDLENGTH difference (see NAMEResource.pack): a 16-bit preference and one name",
-	"(*internal/dnsmsg.SRV).pack|":          "RDLENGTH difference (see NAMEResource.pack): three 16-bit fields and one name",
-	"app/router.packRespTCP|m.Pack(": "n <= 65535 is the size argument of Msg.Pack: truncation to the size limit is C09's subject (R09a/R09b check the guard before every element)",
+	"(*internal/cache.RedisCache).Get|Uint64(":        "stored timestamps read back from redis: a value >= 2^63 becomes a time in the past and the entry is treated as expired; no length or offset is derived from it",
+	"(*internal/dnsmsg.NAMEResource).pack|":           "RDLENGTH is written as uint16(off)-uint16(dataStartOff): exact modulo 2^16 when the packed RDATA is at most 65535 octets; the RDATA is one name of at most 255 octets (Scan rejects longer names). A packed-size argument on the encode path, outside the decode of attacker bytes",
+	"(*internal/dnsmsg.SOA).pack|":                    "RDLENGTH difference (see NAMEResource.pack): two names of at most 255 octets and five 32-bit fields",
+	"(*internal/dnsmsg.MX).pack|":                     "RDLENGTH difference (see NAMEResource.pack): a 16-bit preference and one name",
+	"(*internal/dnsmsg.SRV).pack|":                    "RDLENGTH difference (see NAMEResource.pack): three 16-bit fields and one name",
+	"app/router.packRespTCP|m.Pack(":                  "n <= 65535 is the size argument of Msg.Pack: truncation to the size limit is C09's subject (R09a/R09b check the guard before every element)",
 }
 
 // decodeRoots: the functions that turn attacker bytes into messages; R01f under C01 covers their closure (an
